@@ -156,6 +156,7 @@ func c17ScenarioGated(name string, max int, kinds []string, stopEarly bool, gate
 		var w *c17World
 		outcome := map[string]string{}
 		var stopErr error
+		var dropped []int // clients whose call the server consumed but never answered
 		stopReturned, finished := false, false
 		afterStop := func(who string) {
 			stopReturned = true
@@ -192,6 +193,7 @@ func c17ScenarioGated(name string, max int, kinds []string, stopEarly bool, gate
 				i, kind := i, kind
 				vsched.GoNamed(fmt.Sprintf("client%d", i), func() {
 					defer done.SendNoPoint(struct{}{})
+					defer replied.SendNoPoint(struct{}{}) // whatever the outcome: the stopper's gate counts finished attempts
 					c := w.dial(fmt.Sprintf("10.0.0.%d", i+1))
 					if kind == "dial-close" {
 						c.closeClient()
@@ -202,15 +204,14 @@ func c17ScenarioGated(name string, max int, kinds []string, stopEarly bool, gate
 					switch {
 					case !ok:
 						outcome[fmt.Sprintf("c%d", i)] = "refused"
-						if c.everServed && !stopEarly {
-							w.fail("accepted-connection-dropped-without-reply", "client %d: its call was read by the server but the connection was closed without a reply", i)
+						if c.dataRead && !stopEarly {
+							dropped = append(dropped, i)
 						}
 						return
 					case rp.Denied || rp.AcceptStat != 0:
 						outcome[fmt.Sprintf("c%d", i)] = "rpc-error"
 					default:
 						outcome[fmt.Sprintf("c%d", i)] = "served"
-						replied.SendNoPoint(struct{}{})
 					}
 					if kind == "call-close" {
 						c.closeClient()
@@ -276,6 +277,10 @@ func c17ScenarioGated(name string, max int, kinds []string, stopEarly bool, gate
 			}
 			if b := vNamedBlocked(res, "client", "main", "stopper"); len(b) > 0 || !finished {
 				bad = append(bad, vScnBad{"harness-thread-blocked-forever", fmt.Sprintf("%v (%s)", b, res.Summary())})
+			}
+			if len(dropped) > 0 && !c17EarlyTimer(res) {
+				// with timers firing early (read deadline, idle reaper) a connection may legitimately end first
+				bad = append(bad, vScnBad{"accepted-call-dropped-without-reply", fmt.Sprintf("clients %v: the server consumed the call and closed the connection without a reply although no timer fired early", dropped)})
 			}
 			if stopErr != nil && !c17EarlyTimer(res) {
 				bad = append(bad, vScnBad{"stop-gives-up-although-no-thread-was-slow", fmt.Sprintf("Stop returned %v in an execution where no timer fired before quiescence: the goroutines it waits for were blocked, not slow", stopErr)})
@@ -448,7 +453,7 @@ func c17CloseScenario(name string, seq []string, racing bool) vScn {
 				return strings.Join(log, ","), bad
 			}
 			if n := w.nfs.fileMap.Count(); n != 0 {
-				bad = append(bad, vScnBad{"handles-reappear-after-shutdown", fmt.Sprintf("%v: %d file handles exist at the end", seq, n)})
+				bad = append(bad, vScnBad{"handles-reappear-after-shutdown", fmt.Sprintf("%v: %d file handles exist at the end (calls: %v; early timer: %v)", seq, n, log, c17EarlyTimer(res))})
 			}
 			if n := w.nfs.attrCache.Size(); n != 0 {
 				bad = append(bad, vScnBad{"cache-entries-reappear-after-shutdown", fmt.Sprintf("%v: %d attribute cache entries exist at the end", seq, n)})
